@@ -65,6 +65,16 @@ def run(ctx: Ctx) -> Result:
                 st, items, o = run_s(sc)
                 if st == 'OK' and items and items[-1] == b'\xff':
                     viol('CHECK_ADAPTER_SIG with a non-canonical adapter scalar (' + what_ + ')', {'script': sc.hex()}, 'false or an error', o)
+        # every single bit of every 32-byte check input, for the first adapters of the run (not left to the luck of the draw)
+        if it < ctx.n(1, 4):
+            for which_ in (0, 1, 3, 4):
+                base_ = [sa, R, m, Tp, X]
+                for j_ in range(256):
+                    v_ = bytearray(base_[which_]); v_[j_ // 8] ^= 1 << (j_ % 8); alt = list(base_); alt[which_] = bytes(v_)
+                    sc = chk(*alt)
+                    st, items, o = run_s(sc)
+                    if st == 'OK' and items and items[-1] == b'\xff':
+                        viol('CHECK_ADAPTER_SIG with bit %d of %s flipped' % (j_, ['sa', 'R', 'm', 'T', 'X'][which_]), {'script': sc.hex()}, 'false or an error', o)
         # single-bit corruption of one of the five inputs
         which = rng.randrange(5); vals = [sa, R, m if m else b'\x00', Tp, X]
         v = bytearray(vals[which]); j = rng.randrange(len(v) * 8); v[j // 8] ^= 1 << (j % 8); vals2 = list(vals); vals2[which] = bytes(v)
